@@ -82,7 +82,7 @@ fn run_scan(ctx: &Ctx, laws: bool) -> i32 {
             assumptions: if laws {
                 vec!["'opacity' in the laws is the exactly rounded 8-bit product of layer and cel opacity".into()]
             } else {
-                vec!["the C++ oracle is a faithful transcription of Aseprite's blend_funcs.cpp: validated on every run against the 20 Aseprite-rendered blend_*.png references (0 mismatching pixels required)".into(), "alpha-0 results compare equal regardless of RGB (as the repository's own image comparison)".into()]
+                vec!["the C++ oracle is a faithful transcription of Aseprite's blend_funcs.cpp: validated on every run against the 20 Aseprite-rendered blend_*.png references (0 mismatching pixels required)".into(), "results are compared bit for bit, the colour channels of fully transparent pixels included; only in family S (sparse source cel hanging over the canvas edge) do alpha-0 results compare equal regardless of RGB, because the plane's source is a stand-in where the cel does not reach".into()]
             },
             exhaustive: false,
             min_evaluations: 1000,
